@@ -316,6 +316,13 @@ impl UntypedHandle {
         )
     }
 
+    /// Returns `true` if the entry can be rewritten by hot-reloading.
+    #[cfg(feature = "hot-reloading")]
+    #[inline]
+    pub(crate) fn is_dynamic(&self) -> bool {
+        self.inner.dynamic.is_some()
+    }
+
     #[cfg(feature = "hot-reloading")]
     pub(crate) fn write(&self, asset: CacheEntry) {
         self.inner.write(asset);
